@@ -11,6 +11,7 @@ import (
 	rtdebug "runtime/debug"
 	"strings"
 	"sync"
+	"syscall"
 	"testing"
 	"time"
 )
@@ -60,6 +61,7 @@ func (e *c11Env) reset() {
 			os.WriteFile(filepath.Join(e.dir, fmt.Sprintf("f%d", i)), vfPattern(uint64(i), 0, 200+i), 0o644)
 		}
 		os.WriteFile(filepath.Join(e.dir, "d", "x"), []byte("x"), 0o644)
+		syscall.Mkfifo(filepath.Join(e.dir, "fifo0"), 0o644) // opened read+write (does not block): a file like any other for the handle table
 	} else {
 		e.store = vfNewStore()
 		e.store.Mkdir("/d")
@@ -121,7 +123,11 @@ func c11Script(r *vfRand, n int, many bool) []c11Step {
 		case x < 18:
 			out = append(out, c11Step{op: "open", path: fmt.Sprintf("f%d", r.Intn(6)), pf: vfPick(r, []uint32{rfRead_, rfWrite_, rfRead_ | rfWrite_, rfWrite_ | rfCreat_})})
 		case x < 22:
-			out = append(out, c11Step{op: "open", path: "new" + fmt.Sprint(r.Intn(3)), pf: rfWrite_ | rfCreat_})
+			if r.Intn(3) == 0 {
+				out = append(out, c11Step{op: "open-os-only", path: "fifo0", pf: rfRead_ | rfWrite_})
+			} else {
+				out = append(out, c11Step{op: "open", path: "new" + fmt.Sprint(r.Intn(3)), pf: rfWrite_ | rfCreat_})
+			}
 		case x < 28:
 			out = append(out, c11Step{op: "open-fail", path: "missing" + fmt.Sprint(r.Intn(3)), pf: rfRead_})
 		case x < 34:
@@ -142,9 +148,9 @@ func c11Script(r *vfRand, n int, many bool) []c11Step {
 		case x < 78:
 			out = append(out, c11Step{op: "use-live", arg: r.Intn(1 << 20)})
 		case x < 92:
-			out = append(out, c11Step{op: "use-stale", arg: r.Intn(1 << 20), pf: uint32(r.Intn(5))})
+			out = append(out, c11Step{op: "use-stale", arg: r.Intn(1 << 20), pf: uint32(r.Intn(7))})
 		default:
-			out = append(out, c11Step{op: "use-bogus", arg: r.Intn(5), pf: uint32(r.Intn(5))})
+			out = append(out, c11Step{op: "use-bogus", arg: r.Intn(5), pf: uint32(r.Intn(7))})
 		}
 	}
 	return out
@@ -201,8 +207,8 @@ func (x *c11Run_) pick(open bool, n int) *c11Handle {
 func (x *c11Run_) step(st c11Step) {
 	u, e := x.u, x.e
 	switch st.op {
-	case "open", "open-fail", "opendir", "opendir-fail", "opendir-file-fail":
-		if st.op == "opendir-file-fail" && e.kind != vfOS {
+	case "open", "open-fail", "opendir", "opendir-fail", "opendir-file-fail", "open-os-only":
+		if (st.op == "opendir-file-fail" || st.op == "open-os-only") && e.kind != vfOS {
 			return
 		}
 		var p vfPkt
@@ -281,7 +287,11 @@ func (x *c11Run_) step(st c11Step) {
 		if strings.HasPrefix(st.op, "close") {
 			p = vfPkt{Type: rfClose, Handle: hs}
 		} else {
-			switch st.pf % 5 {
+			switch st.pf % 7 {
+			case 5: // an attribute request that carries no attribute at all: still a request on a dead handle
+				p = vfPkt{Type: rfFsetstat, Handle: hs, Attrs: vfAttrs{}}
+			case 6:
+				p = vfPkt{Type: rfExtended, Ext: "fsync@openssh.com", Handle: hs}
 			case 0:
 				p = vfPkt{Type: rfRead, Handle: hs, Off: 0, Len: 50}
 			case 1:
